@@ -124,7 +124,7 @@ PROPS['C06'] = {
     'rule': ("BFS from GenericArray::into_iter() for every K in 0..=12 (thorough: also 13..=17, 31..=33 complete, 64, 100 and 255..=257 with the argument lattice "
              "{0,1,2,len-1,len,len+1,usize::MAX}) and element sizes 0/4/24 bytes; from every reachable state (origin fresh|clone-at-len, physical front index, len) every operation "
              "next, next_back, nth(k), nth_back(k) for k in 0..=len+2 and usize::MAX, clone, as_mut_slice()[j]=new for every j, plus the consuming operations fold, rfold, count, last, collect, "
-             "rev().collect, Debug, {:#?}, drop, exhaustion (fused), clone-then-drop, and fold / rfold whose closure unwinds at its k-th call (every k < len for len <= 8, else {0, len/2, len-1}: consumed and unconsumed elements must not overlap, i.e. the ledger balances after the unwinding); a case is one (state, operation); non-trivial = K>0 and the state still holds an element; "
+             "rev().collect, Debug, {:#?}, drop, exhaustion (fused), clone-then-drop, clone_from into a destination at every (front, back) position (K <= 4; a position lattice above), the methods the crate leaves to std's provided implementations (find, rfind, position, rposition, any, all, try_fold, try_rfold, by_ref().take, rev().nth, an early-exit for loop, step_by, skip, skip().rev(), skip_while, take_while with every index j in 0..=len+1; reduce, max_by_key, min_by_key, partition, rev().chain, unzip) each compared with the same call on std's array iterator, and fold / rfold whose closure unwinds at its k-th call (every k < len for len <= 8, else {0, len/2, len-1}: consumed and unconsumed elements must not overlap, i.e. the ledger balances after the unwinding); a case is one (state, operation); non-trivial = K>0 and the state still holds an element; "
              "descriptors are unique by construction. Every step is compared with std's array IntoIter and a VecDeque, and the drop ledger must balance after every call and at quiescence."),
     'exhaustive': True,
     'exhaustive_scope': 'all operations and arguments from all reachable states for the listed K; K axis itself is a lattice above 17',
@@ -138,10 +138,10 @@ PROPS['C04'] = {
     'level': 'fault_enumeration',
     'technique': 'exhaustive single-fault enumeration: every call index of every closure / Clone::clone / Iterator::next an operation makes is made to panic once, on the real code, judged by a drop ledger',
     'parts': [engine_part('caller-panic-enumeration', 'e_fault', 'C04', shards_quick=4, asan='thorough')],
-    'rule': ("for every operation x receiver/argument form (generate x4 + default x2; map x4; fold x4; zip 9 stack forms + boxed; Clone of array, Box and of the by-value iterator from every (origin, front, back); "
+    'rule': ("for every operation x receiver/argument form (generate x4 + default x2; map x4; fold x4; zip 9 stack forms + boxed; Clone and clone_from of array, Box and of the by-value iterator from every (origin, front, back); "
              "iterator fold/rfold/for_each/map-collect from every position; try_from_iter/from_iter/try_boxed_from_iter/boxed from_iter from a scripted source of c in {0,N-1,N,N+1,N+2} items with exact/absent hints, and from real "
              "into_iter().map chains; ArrayBuilder/IntrusiveArrayBuilder/ArrayConsumer dropped at every position and fed by extend) x N in {0..9,16,17,33} (iterator positions N<=8 and 16), and N in {100, 1000} for a reduced scenario list with the fault-index lattice {first, last, quartiles, both sides of every power of two}, x element-type "
-             "combinations over {4-byte tracked, 24-byte tracked, zero-sized tracked, plain u32} selecting the needs_drop branches: one fault-free run counts the fault points c, then one execution per k in 0..c with call k panicking. "
+             "combinations over {4-byte tracked, 24-byte tracked, 128-byte tracked, 32-byte/32-aligned tracked, zero-sized tracked, Clone-only without drop glue, zero-sized without drop glue, plain u32, 3-byte plain} selecting the needs_drop branches: one fault-free run counts the fault points c, then one execution per k in 0..c with call k panicking. "
              "A case is one (operation, form, N, types, k); non-trivial = the fault fired and at least one element existed. Oracle: the injected payload propagates, nothing is returned, borrowed sources are intact and live, and after dropping "
              "the survivors every tracked id has exactly one drop, none observed after drop; zero-sized totals balance."),
     'exhaustive': True,
@@ -157,7 +157,7 @@ PROPS['C05'] = {
     'technique': 'exhaustive single-fault enumeration: for every internally-dropping operation from every iterator position, every choice of the one element whose destructor panics, on the real code; the run continues after the caught panic and a drop ledger is judged',
     'parts': [engine_part('destructor-panic-enumeration', 'e_fault', 'C05', shards_quick=4, asan='thorough'), engine_part('serde-teardown', 'e_misc', 'C05', shards_quick=1)],
     'rule': ("for every (origin fresh|clone, front f, back b) of the by-value iterator with N in 0..=8 complete and 16 on the position lattice x operation in {nth(n), nth_back(n) for n in 0..=len+1, count, last, drop, "
-             "fold/rfold/for_each with a dropping closure, clone-then-drop, collect-then-drop}; dropping a GenericArray / Box / fresh iterator / boxed into_iter; ArrayBuilder, IntrusiveArrayBuilder and ArrayConsumer dropped at every position; the "
+             "fold/rfold/for_each with a dropping closure, clone-then-drop, collect-then-drop, clone_from into and from a part-consumed iterator, and the methods the crate leaves to std's provided implementations today - find, rfind, position, rposition, any, all, try_fold, try_rfold (match / break at every j), reduce, max_by_key, min_by_key, partition, skip(j).next, step_by, by_ref().take(j), rev().nth(j), skip_while, zip with another iterator}; dropping a GenericArray / Box / fresh iterator / boxed into_iter; ArrayBuilder, IntrusiveArrayBuilder and ArrayConsumer dropped at every position; the "
              "error paths of try_from_iter, from_iter, try_boxed_from_iter, boxed from_iter, TryFrom<Vec>, try_from_vec, try_from_boxed_slice, TryFrom<Box<[T]>> for c in {0,1,N-1,N,N+1,N+2}; map/zip/fold (owned and boxed) with closures that drop "
              "their arguments, N in {0..9,16,17,33}, and N in {100, 1000} on position / skip / panicking-element lattices; the deserialisation error paths (scripted source offering c in 0..=N+2 elements, an element error at every index, N in {0..6,8,16}); a fault-free run lists the elements destroyed after the arming point, then one execution per such element with its destructor panicking once (never while already panicking). "
              "After the caught panic the views are observed, next/next_back called once more and everything dropped. A case is one (operation, position, N, element type, panicking element); non-trivial = the destructor panicked inside the operation. "
@@ -204,8 +204,8 @@ PROPS['C02'] = {
     'technique': 'bounded exhaustive enumeration of (N, source length L, entry point, element type) and of the shared/mutable view matrix on the real code, with pointer/length oracles on canaried buffers',
     'parts': [engine_part('views', 'e_views', 'C02', shards_quick=2, asan='thorough', miri=True, miri_args=['--maxn', '5'])],
     'rule': ("length gate: N in {0..13,15,16,17,31,32,33,64,100,255,256,1000,1024} x every L in 0..=N+2 (N<=13) or {0,1,N-1,N,N+1,2N} x {from_slice, try_from_slice, TryFrom<&[T]>, from_mut_slice, try_from_mut_slice, TryFrom<&mut [T]>} x element in "
-             "{u8, u64, (), 4-byte tracked, zero-sized tracked, 16-byte/16-aligned, padded (u8,u16)}; the source is the middle of a larger buffer with canary elements; oracle: accepted iff L == N (documented panic / LengthError otherwise), accepted view = "
-             "(address of the source, N), contents in order, writes through mutable views land in the source, canaries untouched. View matrix per (N, element): nine shared views must all be (array address, N) with the elements in order; through each of eight "
+             "{u8, u64, (), 4-byte tracked, zero-sized tracked, 16-byte/16-aligned, padded (u8,u16), 3-byte, 64-byte/64-aligned, 32-byte/32-aligned tracked}; the source is the middle of a larger buffer with canary elements; oracle: accepted iff L == N (documented panic / LengthError otherwise), accepted view = "
+             "(address of the source, N), contents in order, writes through mutable views land in the source, canaries untouched. View matrix per (N, element): nine shared views and eight mutable views must all be (array address, N) with the elements in order; through each of the eight "
              "mutable views a fresh value is written at every index (lattice for N > 13) and read back through all nine shared views; From<&[T;N]>/From<&mut [T;N]> alias the native array. By value: from_array/into_array/From both ways keep every identity in place "
              "with no drop (ledger); tuple conversions for every arity 1..=12. Non-trivial = N > 0 or L > 0."),
     'exhaustive': True,
@@ -239,8 +239,8 @@ PROPS['C07'] = {
     'level': 'fault_enumeration',
     'technique': 'exhaustive enumeration of the environment of a collecting call: scripted source (item count x size-hint policy x fusedness x panic at every next() call) against all four collecting entry points on the real code',
     'parts': [engine_part('scripted-source', 'e_ops', 'C07', shards_quick=4)],
-    'rule': ("N in {0..8,16,17,33,100} x produced item count c in 0..=N+3 (and N = 1000 on a count / panic-index lattice) x size-hint policy in {exact, absent, lower-only, upper-only, loose both, lying low (upper < c), lying high (lower > c), changing between calls} x "
-             "fused / not fused (a non-fused source yields again if polled after its first None, and counts such polls) x entry point in {try_from_iter, from_iter, try_boxed_from_iter, boxed from_iter} x element in {tracked, zero-sized tracked, u32}; "
+    'rule': ("N in {0..8,16,17,33,100} x produced item count c in 0..=N+3 (and N = 1000 on a count / panic-index lattice) x size-hint policy in {exact, absent, lower-only, upper-only, loose both, lying low (upper < c), lying high (lower > c), changing between calls, upper bound exactly usize::MAX with lower 0 or exact} x "
+             "fused / not fused (a non-fused source yields again if polled after its first None, and counts such polls) / fused and carrying the FusedIterator marker (std's Fuse adaptor is then a pass-through) x entry point in {try_from_iter, from_iter, try_boxed_from_iter, boxed from_iter} x element in {tracked, zero-sized tracked, u32}; "
              "for each, the fault-free run and one run per next() call index with that call panicking (all policies for N<=5, exact/absent/lying-high otherwise). Oracle: Ok implies c == N and element i is the i-th produced item, and is impossible when the hint announced before the first pull already rules N out (lower > N or upper < N); c == N with a truthful "
              "hint implies Ok; otherwise LengthError or the 'expected N items' panic; at most N+1 next() calls; zero polls after the source returned None; every produced item dropped exactly once; an injected source panic propagates. "
              "A case is one tuple (+ panic index); non-trivial = c > 0 or N > 0."),
@@ -252,8 +252,8 @@ PROPS['C08'] = {
     'level': 'exploration',
     'technique': 'bounded exhaustive enumeration of (operation, receiver/argument form, element-type combination, N) with recording closures on the real code',
     'parts': [engine_part('call-order', 'e_ops', 'C08', shards_quick=1)],
-    'rule': ("N in {0..8,16,17,33,64,100,128,1000} x {generate x4 forms (array, &, &mut, Box), map x4, fold x4, zip: nine stack receiver x argument forms + boxed x boxed, Clone (array, Box), Default, default_boxed} x element-type combinations over "
-             "{tracked 4/8/24-byte, zero-sized tracked, plain u32} (selecting the drop-aware and no-drop code paths). Closures log every call with its arguments. Oracle: the log is exactly (a[0]) (a[1]) ... once each ascending - for zip the pair "
+    'rule': ("N in {0..8,16,17,33,64,100,128,1000} x {generate x4 forms (array, &, &mut, Box), map x4, fold x4, zip: nine stack receiver x argument forms + boxed x boxed, Clone and clone_from (array, Box), Default, default_boxed} x element-type combinations over "
+             "{tracked 4/8/24-byte, 32-byte/32-aligned tracked, zero-sized tracked, Clone-only without drop glue, zero-sized without drop glue, plain u32, 3-byte, 64-byte/64-aligned} (selecting the drop-aware and no-drop code paths). Closures log every call with its arguments. Oracle: the log is exactly (a[0]) (a[1]) ... once each ascending - for zip the pair "
              "(a[i], b[i]) in that argument order, for fold a non-commutative accumulator threaded left to right - result element i is what call i returned, Clone/Default are called N times in index order, and nothing is left alive or dropped twice. "
              "Non-trivial = N > 0."),
     'exhaustive': True,
@@ -427,7 +427,7 @@ PROPS['C01'] = {
              "([u64; 0], repr(align(64)) unit struct, (), PhantomData), MaybeUninit / ManuallyDrop wrappers, nested GenericArrays, niche-carrying types; lengths: all 1148 lengths typenum names (every N in 0..=1024 = every even/odd digit pattern to depth 10, "
              "then 2^k, 2^k-1, 10^k up to 2^62) and, written out as nested UInt<..> types, for every binary depth 11..=62 the lengths 2^d, 2^d-1, 2^d+1 and two alternating digit patterns (every third in the quick tier); pairs whose byte size would reach rustc's "
              "object-size bound 2^61 are skipped. Oracle per pair: size == N * size_of::<T>(), align == align_of::<T>(), size == size_of::<[T; N]>(). Address walk: for 20 layouts (incl. zero-sized and packed) x N in 0..=65 and boundary lengths a zeroed heap value "
-             "is built; as_slice() must be (array address, N), element i at base + i * size_of::<T>(), the last element ending exactly at the array's end. A case is one (layout, length) pair or one walk; non-trivial = N > 0."),
+             "is built; every way of viewing the array as a slice (as_slice, as_mut_slice, Deref, DerefMut, AsRef, AsMut, Borrow, BorrowMut, by-reference and by-mutable-reference iteration) must be (array address, N), element i at base + i * size_of::<T>(), the last element ending exactly at the array's end; for the zero-sized layouts also at N in {2^32-1, 2^32, 2^32+3, 2^40+1, 2^62} (such arrays cost no memory). A case is one (layout, length) pair or one walk; non-trivial = N > 0."),
     'exhaustive': True,
     'exhaustive_scope': 'N <= 1024 x the layout family is complete; lengths above 1024 are a lattice over every binary depth to 62',
     'assumptions': COMMON_ASSUME + ["the layout of a storage node depends on T only through (size, align), which the grid covers up to 64/64; field-by-field construction through ConstDefault is decided under C19"],
